@@ -25,14 +25,34 @@ class Cfg:
     """Constants of one BrownianImpl instance."""
 
     def __init__(self, N, Sub=1, Tol=0, CacheSize=2, Halfway=False, DtHint=0, WarmUp=100, QStep=1, ZeroLen=False,
-                 Fuel=12, MaxEval=3, MaxNodes=31, Legacy=False):
+                 Fuel=12, MaxEval=3, MaxNodes=31, Legacy=False, off=0):
         self.N, self.Sub, self.Tol, self.CacheSize, self.Halfway = N, Sub, Tol, CacheSize, Halfway
+        # `off`: origin of the real time axis in sub-units: model time x <-> real time (x + off) / Sub.  Not a constant
+        # of the TLA+ model (which is translation invariant); with Tol > 0 it must be a multiple of 2 Tol so that
+        # round-half-even resolves ties the same way.  Exercises intervals that straddle or lie left of zero.
+        assert Tol == 0 or off % (2 * Tol) == 0, (Tol, off)
+        self.off = off
         self.DtHint, self.WarmUp, self.QStep, self.ZeroLen = DtHint, WarmUp, QStep, ZeroLen
         self.Fuel, self.MaxEval, self.MaxNodes, self.Legacy = Fuel, MaxEval, MaxNodes, Legacy
 
     @property
     def T(self):
         return self.N * self.Sub
+
+    def t(self, x):
+        """real time of model time x (sub-units)"""
+        return (x + self.off) / self.Sub
+
+    def shifted(self, off):
+        c = Cfg(self.N, self.Sub, self.Tol, self.CacheSize, self.Halfway, self.DtHint, self.WarmUp, self.QStep, self.ZeroLen,
+                self.Fuel, self.MaxEval, self.MaxNodes, self.Legacy, off=off)
+        return c
+
+    def offsets(self):
+        """origins tried by the replays: 0, the interval centred at zero, entirely negative, far to the right"""
+        step = 2 * self.Tol if self.Tol else 1
+        cands = [0, -(self.T // 2), -self.T, 3 * self.T]
+        return [o for o in cands if o % step == 0]
 
     def key(self):
         return (f"N{self.N}s{self.Sub}t{self.Tol}c{self.CacheSize}h{int(self.Halfway)}d{self.DtHint}"
@@ -47,8 +67,11 @@ class Cfg:
         return s
 
     def as_dict(self):
-        return dict(N=self.N, Sub=self.Sub, Tol=self.Tol, CacheSize=self.CacheSize, Halfway=self.Halfway,
-                    DtHint=self.DtHint, WarmUp=self.WarmUp, QStep=self.QStep, ZeroLen=self.ZeroLen)
+        d = dict(N=self.N, Sub=self.Sub, Tol=self.Tol, CacheSize=self.CacheSize, Halfway=self.Halfway,
+                 DtHint=self.DtHint, WarmUp=self.WarmUp, QStep=self.QStep, ZeroLen=self.ZeroLen)
+        if self.off:
+            d["off"] = self.off
+        return d
 
     def round(self, x):
         """The model's Round on integer sub-units (round-half-even to multiples of Tol)."""
@@ -64,7 +87,7 @@ class Cfg:
 
 def make_real(cfg, size=(), levy="none", entropy=1234, W=None, H=None, dtype=torch.float64, scale_warmup=True):
     """Construct the real object the model instance describes."""
-    kw = dict(t0=0.0, t1=float(cfg.N), size=size if (W is None and H is None) else None, dtype=dtype,
+    kw = dict(t0=cfg.t(0), t1=cfg.t(cfg.T), size=size if (W is None and H is None) else None, dtype=dtype,
               entropy=entropy, tol=1.0 if cfg.Tol else 0.0,
               cache_size=None if cfg.CacheSize < 0 else cfg.CacheSize,
               halfway_tree=bool(cfg.Halfway), levy_area_approximation=levy)
@@ -92,7 +115,8 @@ class ProjectionUnavailable(Exception):
 
 
 def _as_units(x, sub):
-    v = x * sub
+    """model time (sub-units) of real time x; `sub` is a Cfg (or, legacy, the integer Sub with origin 0)"""
+    v = x * sub.Sub - sub.off if isinstance(sub, Cfg) else x * sub
     iv = int(round(v))
     if abs(v - iv) > 1e-9:
         raise ProjectionUnavailable(f"time {x!r} is not on the sub-unit grid")
@@ -124,9 +148,10 @@ def project(bm, sub):
             cache = []
         st = dict(tree=tree, cache=cache, last=ids[id(bm._last_interval)])
         if not bm._halfway_tree:
+            scale = sub.Sub if isinstance(sub, Cfg) else sub
             st["nEval"] = bm._num_evaluations
-            st["treeDt"] = bm._tree_dt * sub
-            st["avgDt"] = bm._average_dt * sub
+            st["treeDt"] = bm._tree_dt * scale
+            st["avgDt"] = bm._average_dt * scale
         return st, ids
     except (AttributeError, KeyError) as e:
         raise ProjectionUnavailable(repr(e))
@@ -207,7 +232,7 @@ def base_depth():
 
 def call(bm, a, b, sub, levy):
     """One public call with real times a/sub, b/sub.  Returns (W, U, A) (U/A None when not available)."""
-    ta, tb = a / sub, b / sub
+    ta, tb = (sub.t(a), sub.t(b)) if isinstance(sub, Cfg) else (a / sub, b / sub)
     if levy in ("none",):
         return bm(ta, tb), None, None
     if levy == "space-time":
@@ -225,7 +250,7 @@ def step_real(bm, a, b, cfg, levy, rec=None):
     try:
         with warnings.catch_warnings():
             warnings.simplefilter("ignore")
-            out["W"], out["U"], out["A"] = call(bm, a, b, cfg.Sub, levy)
+            out["W"], out["U"], out["A"] = call(bm, a, b, cfg, levy)
     except RecursionError as e:
         out["exc"] = "RecursionError"
     except Exception as e:  # noqa: BLE001
@@ -234,7 +259,7 @@ def step_real(bm, a, b, cfg, levy, rec=None):
     if rec is not None and out["exc"] is None and rec.calls:
         node, ta, tb, pieces = rec.calls[-1]
         try:
-            out["pieces"] = [(_as_units(p._start, cfg.Sub), _as_units(p._end, cfg.Sub)) for p in pieces]
+            out["pieces"] = [(_as_units(p._start, cfg), _as_units(p._end, cfg)) for p in pieces]
             out["piece_nodes"] = pieces
         except (ProjectionUnavailable, AttributeError):
             out["pieces"] = None
@@ -269,7 +294,7 @@ def replay(cfg, queries, size=(), levy="none", entropy=1234, W=None, H=None, dty
             r["cache_len"] = cache_len(bm)
             if structural:
                 try:
-                    st, _ = project(bm, cfg.Sub)
+                    st, _ = project(bm, cfg)
                 except ProjectionUnavailable as e:
                     st = None
                     r["projection_unavailable"] = str(e)
